@@ -48,9 +48,17 @@ def rangeOf (locals : List LBlock) (n : Nat) : Option (Int × Int) :=
 /-- `lazyOverlapChecker.sync`: list the bucket, download every block's meta.json.
     `skipPartial = true` (the code after the repair): a block directory without meta.json — a
     partial upload — is skipped; `false` (the code before): it makes the whole sync fail. -/
+def collectRanges (locals : List LBlock) (s : Bucket) : List Nat → Option (List (Int × Int))
+  | [] => some []
+  | n :: ns =>
+    if (get s (n, metaName)).isSome then
+      match rangeOf locals n, collectRanges locals s ns with
+      | some r, some rs => some (r :: rs)
+      | _, _ => none
+    else none
+
 def checkerSyncWith (skipPartial : Bool) (locals : List LBlock) (s : Bucket) : Option (List (Int × Int)) :=
-  ((dirsOf s).filter fun n => !skipPartial || (get s (n, metaName)).isSome).mapM fun n =>
-    if (get s (n, metaName)).isSome then rangeOf locals n else none
+  collectRanges locals s ((dirsOf s).filter fun n => !skipPartial || (get s (n, metaName)).isSome)
 
 /-- what the code does now (switched by the `fix:` commit; fact `shipperCheckerSkipsPartial`) -/
 def codeSkipPartial : Bool := true
